@@ -136,8 +136,13 @@ def check_ipow(rep, h):
         elif init == e:
             role['p'] = pid
     if set(role) != {'r', 'b', 'p'}:
-        rep.fail("C18.ipow", inst, FILE, "loop-carried values start at %s; expected r = 1, b = base, p = exponent" % [ir.show(i_["init"]) for i_ in s.iv.values()])
-        return
+        inits = [i_["init"] for i_ in s.iv.values()]
+        if all(const_val(x) is not None or x in (base, e) for x in inits):
+            # the canonical loop with other start values: alpha + beta*p = e does not hold on entry
+            rep.fail("C18.ipow", inst, FILE, "loop-carried values start at %s; expected r = 1, b = base, p = exponent (the exponent invariant alpha + beta*p = e does not hold on entry)" % [ir.show(x) for x in inits])
+            return
+        raise AnalysisBroken("C18 %s: loop-carried values start at %s, not at r = 1, b = base, p = exponent (a peeled or rotated square-and-multiply loop): the exponent invariant is stated for the canonical loop only; re-confirm %s by reading" % (
+            inst, [ir.show(x)[:40] for x in inits], FILE))
     iv = {k: ('iv', pid, s.iv[pid]["init"]) for k, pid in role.items()}
     A, B_, P_, BIT = (ir.Poly.atom(x) for x in ("alpha", "beta", "p", "bit"))
     one = ir.Poly.const(Fraction(1))
